@@ -216,4 +216,15 @@ CHECKS = {
             part("c19", "pkg/zzverif/c19", "TestVerifC19", ["zz_verif_c19_test.go"], shards={"quick": 16, "thorough": 16}),
         ],
     },
+    "C13": {
+        "level": "model_checking",
+        "engine": "E2",
+        "technique": "exhaustive enumeration of operation-document streams x encodings x initial cluster states on the real parser and patcher vs a reference interpreter",
+        "level_text": "Every stream of 1-2 documents and a spread (thorough: all) of 3-document streams over 11-12 valid operations (Create / CreateIfNotExists / CreateOrUpdate, delete variants, MergePatch / JSONPatch / JQPatch, objects and patches inline and as strings, integer / float / bool fields, ignoreMissingObject) and 7 single-fault invalid documents, written as a JSON stream and as a YAML stream, goes through the real ParseOperations and ObjectPatcher.ExecuteOperations on a fake cluster with the object absent or present. Oracle: an invalid document anywhere gives an error and an untouched cluster; otherwise the final cluster equals a reference interpreter applying the operations once each in order, an apply-time error is reported exactly when the reference predicts one, nothing panics, and both encodings decode to deep-equal operation specs (numeric types included).",
+        "level_note": "Trusted: the fake dynamic client as cluster, gojq, the reference interpreter. 'Invalid' is limited to the unmistakable faults of docs/src/KUBERNETES.md. Foreground Delete (polls with a real 1 s interval) only in the thorough tier; subresource is not exercised (the fake client ignores it).",
+        "rule": "product enumeration of document streams x {absent, present}; non-trivial = more than one document; distinct = distinct (final cluster, error)",
+        "parts": [
+            part("c13", "pkg/kube/object_patch", "TestVerifC13", ["zz_verif_c13_test.go"], shards={"quick": 16, "thorough": 16}),
+        ],
+    },
 }
